@@ -13,6 +13,10 @@ let run_hist (noop : bool) (step : world -> wop -> (world * out) res) (nslots : 
   let add s = if Buffer.length buf > 0 then Buffer.add_char buf ','; Buffer.add_string buf s in
   let stop = ref false in
   let recreated_with_state = ref false in
+  (* per-instance libraries of the driver: name n of object i is at 0x1000 + 256 i + n (reported minus 0x1000) *)
+  let sw = ref (symw_init (ni 3)) in
+  let lib i n = Z.add (Z.mul (zi 256) (Z.of_nat i)) n in
+  let sym k i n = (let (sw', r) = sstep lib false !sw (SLook (k, ni i, zi n)) in sw := sw'; r) in
   let apply o = (match step !w o with Ok (w', x) -> w := w'; Some x | _ -> None) in
   let created i = (match (List.nth !w.sbs i).st with Created -> true | _ -> false) in
   List.iter (fun tok ->
@@ -28,9 +32,11 @@ let run_hist (noop : bool) (step : world -> wop -> (world * out) res) (nslots : 
          | "lb" | "ilb" | "fa" -> if noop then add (c ^ "=skip") else
              (* by-name lookup through a reused caller buffer: the address is the named function's, whatever was looked up before *)
              let op = if c = "lb" then WLookup (ni (arg 1), zi (arg 2)) else WILookup (ni (arg 1), zi (arg 2)) in
+             (* the caches with their contents (Symbols.v): which address comes back *)
+             let (asked, addr) = sym (if c = "lb" then SPub else SInt) (arg 1) (arg 2) in
              (match apply op with
-              | Some (OBool true) -> add (c ^ "=asked:" ^ string_of_int (arg 2))
-              | Some _ -> add (c ^ "=cached:" ^ string_of_int (arg 2)) | None -> abort ())
+              | Some (OBool b) when b = asked -> add (c ^ (if b then "=asked:" else "=cached:") ^ string_of_z addr)
+              | Some _ -> add (c ^ "=MODELS-DISAGREE") | None -> abort ())
          | "c" ->
            let i = arg 1 in
            let ok = noop || (List.nth o 2 = "1") in
@@ -44,7 +50,9 @@ let run_hist (noop : bool) (step : world -> wop -> (world * out) res) (nslots : 
              (match apply (WFree (ni (arg 1))) with Some OIgnored -> add "f=ignored" | Some _ -> add "f=done" | None -> abort ())
          | "l" | "il" -> if noop then add (c ^ "=skip") else
              let op = if c = "l" then WLookup (ni (arg 1), zi (arg 2)) else WILookup (ni (arg 1), zi (arg 2)) in
-             (match apply op with Some (OBool true) -> add (c ^ "=asked") | Some _ -> add (c ^ "=cached") | None -> abort ())
+             let (asked, _) = sym (if c = "l" then SPub else SInt) (arg 1) (arg 2) in
+             (match apply op with Some (OBool b) when b = asked -> add (c ^ (if b then "=asked" else "=cached"))
+                                | Some _ -> add (c ^ "=MODELS-DISAGREE") | None -> abort ())
          | "r" ->
            (match apply (WRegister (ni (arg 1), ni (arg 2), zi (arg 3))) with
             | Some (ONat n) -> add (if noop then "r=ok" else "r=" ^ string_of_int (int_of_nat n))
